@@ -1,6 +1,6 @@
 (* Properties/C11.v — pinned statements only. *)
 From Boreal Require Import Base.Prelude Base.ListX Base.Bytes Model.Literals Model.AcScan Model.Memory
-  Spec.FragSpec Model.FragCase Proofs.AcScanDecomp Proofs.LimitsProofs Proofs.FragProofs Proofs.FragMemory Proofs.FragSearch.
+  Spec.FragSpec Model.FragCase Proofs.AcScanDecomp Proofs.LimitsProofs Proofs.FragProofs Proofs.FragMemory Proofs.FragSearch Proofs.FragFailed.
 
 (* the union: for every matcher kind and every limit, the matches of a string after a fragmented scan
    are the concatenation, in region order, of scans of each fetched region started from an empty list
@@ -30,6 +30,23 @@ Theorem C11_failed_region :
   forall prm vars pre r post, f_fail r = true ->
     scan_fragmented prm vars (pre ++ r :: post) = scan_fragmented prm vars (pre ++ post).
 Proof. exact failed_region_skipped. Qed.
+
+(* ... any number of them, anywhere in the layout: the scan is the scan of the fetched regions alone;
+   and a layout whose fetches all fail reports nothing *)
+Theorem C11_failed_regions_absent :
+  forall prm vars regions,
+    scan_fragmented prm vars regions = scan_fragmented prm vars (filter fetched regions).
+Proof. exact failed_regions_absent. Qed.
+
+Theorem C11_failed_regions_absent_var :
+  forall prm var regions,
+    scan_var_fragmented prm var regions = scan_var_fragmented prm var (filter fetched regions).
+Proof. exact failed_regions_absent_var. Qed.
+
+Theorem C11_all_failed_nothing :
+  forall prm vars regions,
+    forallb f_fail regions = true -> scan_fragmented prm vars regions = empty_matches vars.
+Proof. exact all_failed_nothing. Qed.
 
 Theorem C11_single_zero :
   forall prm vars mem dl,
@@ -192,3 +209,6 @@ Print Assumptions C11_find_at.
 Print Assumptions C11_find_in.
 Print Assumptions C11_binary_search_found.
 Print Assumptions C11_region_order_refuted.
+Print Assumptions C11_failed_regions_absent.
+Print Assumptions C11_failed_regions_absent_var.
+Print Assumptions C11_all_failed_nothing.
